@@ -958,6 +958,44 @@ CLIP6_KERNELS = [
 ]
 SEGEQ6_KERNELS = [K(f'{CLS[a]}___eq___{CLS[b]}', [a, b], (lambda x, y: x == y), 'B') for a in ('seg2', 'seg3', 'seg4') for b in ('seg2', 'seg3', 'seg4')]
 NEW_KERNELS6 = FIT6_KERNELS + SEGEQ6_KERNELS + CLIP6_KERNELS
+# round 7 -- cubicbezier.py CubicBezier.tOfPoint (Gen/Lookup.v): the sampled lookup; IndexError of regularSampleTValue's rSamples[-1] (a NaN length)
+# is `Raises PyIndexError`.  Cubics of length about 5 .. 600 (short ones, straight ones, rarely of length 0 or with a NaN): the sampling loops run
+# about `length` iterations, far below FUEL; the refinement loop runs 11 times.
+def g_lcubic(rng):
+    fam = rng.choice(['random', 'random', 'random', 'short', 'short', 'straight', 'straight', 'axis', 'gentle', 'gentle', 'int'] + (['zero', 'nan'] if rng.random() < 0.25 else []))
+    for _ in range(200):
+        if fam in ('random', 'int', 'nan'):
+            sc = rng.choice([3, 10, 30, 60, 100, 150])
+            pts = [Point(float(rng.randint(-sc, sc)), float(rng.randint(-sc, sc))) if fam == 'int' else Point(rng.uniform(-sc, sc), rng.uniform(-sc, sc)) for _ in range(4)]
+        elif fam == 'short':
+            o = Point(rng.uniform(-100, 100), rng.uniform(-100, 100))
+            pts = [o + Point(rng.uniform(-4, 4), rng.uniform(-4, 4)) for _ in range(4)]
+        elif fam in ('straight', 'axis'):
+            L = rng.choice([5.0, 8.0, 16.0, 50.0, 64.0, 100.0, 300.0, 512.0, rng.uniform(5, 600), float(rng.randint(5, 600))])
+            o = Point(float(rng.randint(-50, 50)), float(rng.randint(-50, 50))) if rng.random() < 0.5 else Point(rng.uniform(-50, 50), rng.uniform(-50, 50))
+            a = rng.uniform(0, 2 * math.pi)
+            d = rng.choice([(1.0, 0.0), (0.0, 1.0), (-1.0, 0.0), (0.0, -1.0), (0.6, 0.8), (-0.8, 0.6)]) if fam == 'axis' else (math.cos(a), math.sin(a))
+            ts = rng.choice([[0.0, 1 / 3, 2 / 3, 1.0], [0.0, 0.25, 0.75, 1.0], [0.0, rng.random(), rng.random(), 1.0], [0.0, 0.0, 1.0, 1.0], [0.0, 0.9, 0.1, 1.0]])
+            pts = [Point(o.x + d[0] * L * t, o.y + d[1] * L * t) for t in ts]
+        elif fam == 'gentle':
+            L = rng.uniform(5, 600); a = rng.uniform(0, 2 * math.pi); b = rng.uniform(-0.6, 0.6)
+            o = Point(rng.uniform(-50, 50), rng.uniform(-50, 50))
+            e = Point(L * math.cos(a), L * math.sin(a)); nrm = Point(-math.sin(a), math.cos(a))
+            pts = [o, o + e * (1 / 3) + nrm * (b * L * rng.uniform(0.2, 0.5)), o + e * (2 / 3) + nrm * (b * L * rng.uniform(0.2, 0.5)), o + e]
+        else:      # zero
+            q = (float(rng.randint(-50, 50)), float(rng.randint(-50, 50)))
+            pts = [Point(*q) for _ in range(4)]
+        c = CubicBezier(*pts)
+        if fam == 'nan':
+            q = c.points[rng.randrange(4)]
+            if rng.random() < 0.5: q.x = math.nan
+            else: q.y = math.nan
+            return c
+        if fam == 'zero' or (5.0 <= c.length <= 600.0 and (fam != 'short' or c.length <= 25.0)): return c
+    return c
+GEN['lcubic'] = g_lcubic
+KIND['lcubic'] = 'seg4'
+NEW_KERNELS7 = [K('Cubic_tOfPoint', ['lcubic', 'P'], catching(lambda s, q: s.tOfPoint(q)), 'OXS', term=fuelled('Cubic_tOfPoint'))]
 
 KERNELS = {k.name: k for k in (
     [K('Point___add__', ['P', 'P'], lambda a, b: a + b, 'P'), K('Point___sub__', ['P', 'P'], lambda a, b: a - b, 'P'),
@@ -995,7 +1033,7 @@ KERNELS = {k.name: k for k in (
      K('Quad_toCubicBezier', ['seg3'], lambda s: s.toCubicBezier(), 'seg4'),
      K('Cubic_findExtremes_False', ['seg4'], lambda s: s.findExtremes(), 'LS'),
      K('Cubic_hasLoop', ['seg4'], lambda s: s.hasLoop, 'OSS'),
-     ] + seg_kernels('seg2') + seg_kernels('seg3') + seg_kernels('seg4') + NEW_KERNELS + NEW_KERNELS2 + NEW_KERNELS3 + NEW_KERNELS4 + NEW_KERNELS5 + NEW_KERNELS6)}
+     ] + seg_kernels('seg2') + seg_kernels('seg3') + seg_kernels('seg4') + NEW_KERNELS + NEW_KERNELS2 + NEW_KERNELS3 + NEW_KERNELS4 + NEW_KERNELS5 + NEW_KERNELS6 + NEW_KERNELS7)}
 
 # comparison of flattened edges: the line and its _orig (None, or the curve it was cut from, class included)
 PREAMBLE = '''From Coq Require FloatOps SpecFloat.
@@ -1035,7 +1073,7 @@ Fixpoint s_lookup4 (tbl : list (float * float * float)) (u v : float) : float :=
   match tbl with [] => PrimFloat.nan | (u', v', r) :: rest => if fbits_eq u u' && fbits_eq v v' then r else s_lookup4 rest u v end.
 '''
 IMPORTS = ['Gen.Utils', 'Gen.Point', 'Gen.Affine', 'Gen.BBox', 'Gen.Line', 'Gen.Quad', 'Gen.Cubic', 'Gen.CurveDist', 'Gen.Shapes', 'Gen.Fit', 'Gen.Sample',
-           'Gen.Nodelist', 'Gen.Sweep', 'Gen.Split', 'Gen.CurveCurve', 'Gen.MinDist', 'Gen.Winding', 'Gen.PathOps', 'Gen.Clip', 'Hand.CurveCurve']      # (Hand.CurveCurve: key2F / keyF_eqb)
+           'Gen.Nodelist', 'Gen.Sweep', 'Gen.Split', 'Gen.CurveCurve', 'Gen.MinDist', 'Gen.Winding', 'Gen.PathOps', 'Gen.Clip', 'Gen.Lookup', 'Hand.CurveCurve']      # (Hand.CurveCurve: key2F / keyF_eqb)
 
 
 def clone_arg(kind, v):
@@ -1082,6 +1120,15 @@ def clone_arg(kind, v):
 def special_args(k, rng, args):
     """make some inputs land on the interesting sets: points on the segment for tOfPoint, lines crossing curves"""
     name = k.coq
+    if name == 'Cubic_tOfPoint':
+        # round 7: query points ON the curve at a random t (ends and sample-grid values included), near it, or anywhere
+        s = args[0]; r = rng.random()
+        if any(x != x for q in s.points for x in (q.x, q.y)): return args
+        if r < 0.7: args[1] = s.pointAtTime(rng.choice([rng.random(), rng.random(), rng.random(), gen.tvalue(rng), rng.randint(0, 50) / 50.0]))
+        elif r < 0.88:
+            w = rng.choice([1e-9, 0.01, 1.0, 10.0])
+            args[1] = s.pointAtTime(rng.random()) + Point(rng.uniform(-w, w), rng.uniform(-w, w))
+        return args
     if name.endswith('_tOfPoint') and rng.random() < 0.7:
         s = args[0]; t = gen.tvalue(rng)
         args[1] = s.pointAtTime(t)
